@@ -102,7 +102,7 @@ def check(run: Run) -> None:
         for o, c_ in (("(", ")"), ("[", "]"), ("f(", ")"), ("{1: ", "}"), ("$(echo @(", "))")):
             add("x = " + o * d + "a" + c_ * d + " +\n", "depth-band:rejected")
             add(o * d + "a b" + c_ * d + "\n", "depth-band:rejected")
-    for c in gens.indent(run)[:: (3 if run.tier == "quick" else 1)]:
+    for c in gens.indent(run, light=True)[:: (3 if run.tier == "quick" else 1)]:
         add(c["src"], "indent.tla")
     for c in gens.fmode(run)[:: (4 if run.tier == "quick" else 3)]:
         add(c["src"], "fmode.tla")
